@@ -11,6 +11,15 @@ from bibtexparser.model import Field
 from .middleware import BlockMiddleware
 
 
+def _digits_to_int(digits: str) -> int:
+    """The number written by a string of ASCII digits, cut after four significant digits.
+
+    ``int()`` refuses digit strings beyond the interpreter's length limit (ValueError above
+    4300 digits); four significant digits are already far out of the month range."""
+    significant = digits.lstrip("0") or "0"
+    return int(significant[:4])
+
+
 class _MonthInterpolator(BlockMiddleware, abc.ABC):
     """Abstract class to handle month-conversions."""
 
@@ -89,7 +98,7 @@ class MonthLongStringMiddleware(_MonthInterpolator):
     def resolve_month_field_val(self, month_field: Field):
         v = month_field.value
         if isinstance(v, str) and v.isascii() and v.isdigit():
-            v = int(v)
+            v = _digits_to_int(v)
         if isinstance(v, int):
             if v < 1 or v > 12:
                 return (
@@ -133,7 +142,7 @@ class MonthAbbreviationMiddleware(_MonthInterpolator):
     def resolve_month_field_val(self, month_field: Field):
         v = month_field.value
         if isinstance(v, str) and v.isascii() and v.isdigit():
-            v = int(v)
+            v = _digits_to_int(v)
         if isinstance(v, int):
             if v < 1 or v > 12:
                 # Nothing we can do here
@@ -181,7 +190,7 @@ class MonthIntMiddleware(_MonthInterpolator):
                 )
 
         if isinstance(v, str) and v.isascii() and v.isdigit():
-            if 1 <= int(v) <= 12:
-                return int(v), "cast month int-string to int"
+            if 1 <= _digits_to_int(v) <= 12:
+                return _digits_to_int(v), "cast month int-string to int"
 
         return month_field.value, "month field unchanged"
